@@ -346,7 +346,7 @@ func TestVerif_C05_h2wseq(t *testing.T) {
 			"answer = per-call result, the bytes that reached the connection, and those bytes read back frame by frame until a terminal error: fork vs x/net (oracle) vs the Lean Writer state machine runCalls + readAll (c05wseq); in legal mode additionally fork read-back vs readSpec computed from the OPERATIONS (c05rseq, theorem framer_write_read_sequence); frames >= 2^24 (refused by endWrite after the whole frame is buffered) followed by valid calls: fork vs x/net only; non-trivial = at least one refused/short/failed call followed by an accepted one, or a header-block state other than closed when a call is made")
 	r := s.Rand()
 	hs := newC05hist(s)
-	n := verifh.N(2500, 60000)
+	n := verifh.N(4000, 100000)
 	sidOf := func() uint32 { return c05pick(r, uint32(1), 3, 5, 0x7fffffff, uint32(1+r.Intn(1000))) }
 	for cse := 0; cse < n; cse++ {
 		legal := r.Intn(5) < 3
@@ -371,14 +371,23 @@ func TestVerif_C05_h2wseq(t *testing.T) {
 				sid := sidOf()
 				eh := r.Intn(2) == 0
 				state := "closed"
+				if open == 0 && !afterPP {
+					// outside a block: frames that can open one are drawn more often
+					switch x := r.Intn(20); {
+					case x < 6:
+						name, eh = "headers", r.Intn(3) == 0
+					case x < 9:
+						name, eh = "pp", r.Intn(3) == 0
+					}
+				}
 				switch {
 				case open != 0:
 					state = "open"
 					nontrivial = true
 					switch x := r.Intn(10); {
-					case x < 5:
+					case x < 4:
 						name, sid = "cont", open
-					case x < 6:
+					case x < 5:
 						name = "cont"
 						if sid == open {
 							sid = open%0x7ffffffe + 1
